@@ -63,6 +63,15 @@ def main():
         meta["suite_with_change"] = {"stable_pass_still_passing": len(base["stable_pass"]) - len(missing), "missing": missing}
         print("suite missing:", missing)
         ok = ok and not missing
+    if a.skip_suite:
+        oldp = os.path.join(VERIF, "seeded", name, "meta.json")
+        if os.path.exists(oldp):
+            oldm = json.load(open(oldp))
+            for k in ("suite_with_change", "change", "needs_to_manifest", "history", "breaks_property"):
+                if k in oldm:
+                    meta[k] = oldm[k]
+            if "suite_with_change" in oldm:
+                ok = ok and not oldm["suite_with_change"]["missing"]
     meta["confirmed"] = ok
     # 4. our checks against the changed tree
     checks = ALL if a.all else (a.checks.split(",") if a.checks else [a.prop])
